@@ -30,6 +30,9 @@ def nontrivial(j, o):
 
 def run(ctx):
     engine_check.standard_run(ctx, PROFILE, MONITORS, nontrivial, RULE, n_quick=200, n_thorough=3000, length=30)
+    # [operation on X; Destroy X; operations on X] in one batch, then again after it
+    engine_check.scenario_run(ctx, "scen_engine.dead_in_batch_builder", MONITORS, nontrivial, RULE, 24, 400, 4,
+                              "dead_in_batch_part", seed_base=870000)
     # the same property on database files an EARLIER run of the server wrote (corpus/legacy_db)
     import legacy_db_check
     legacy_db_check.hook(ctx, "c07")
